@@ -65,8 +65,8 @@ theorem Tie_filter_process (c : PV → Except Err PV) (rows : List PV) (cond : P
   unfold callFn Live.Py.filter_process
   simp only [bindParams, Env.set, bind, Except.bind]
   rw [exec]
-  simp only [evalE, Env.get, List.lookup, iterOf, bind, Except.bind]
-  simp only [show ("rows" == "condition") = false by decide, show ("rows" == "rows") = true by decide]
+  simp only [evalE, Env.get, List.lookup, iterLazy_list, bind, Except.bind,
+    show ("rows" == "condition") = false by decide, show ("rows" == "rows") = true by decide]
   simp only [Except.map, List.nil_append] at h
   revert h
   cases loopFor _ (bind1 "row") rows _ with
@@ -224,7 +224,7 @@ theorem Tie_deduper (ext : Ext) (pk : List PV) (hpk : pk ≠ []) (rows : List PV
   rw [deduper_body_is, hp, hg]
   simp only [rowsObj] at hl ⊢
   simp [bindParams, exec, evalE, evalArgs, applyFn, builtinOp, Env.get, Env.set, List.lookup, bind, Except.bind, opAttr, opGetitem,
-    opGet, opMkList, opLen, opEq, opSet, PV.lookup, PV.beq, PV.truthy, iterOf, Except.map, hlen]
+    opGet, opMkList, opLen, opEq, opSet, PV.lookup, PV.beq, PV.truthy, iterOf, iterLazy, Except.map, hlen]
   revert hl
   cases loopFor (exec ext dedupBody) (bind1 "row") rows _ with
   | error e => cases dedupSpec pk rows [] <;> simp [Except.map]
@@ -240,6 +240,6 @@ theorem Tie_deduper_nopk (ext : Ext) (rows : List PV) :
   · unfold callFn
     rw [deduper_body_is, hp, hg]
     simp [rowsObj, bindParams, exec, evalE, evalArgs, applyFn, builtinOp, Env.get, Env.set, List.lookup, bind, Except.bind, opAttr,
-      opGetitem, opGet, opMkList, opLen, opEq, PV.lookup, PV.beq, PV.truthy, iterOf, Except.map]
+      opGetitem, opGet, opMkList, opLen, opEq, PV.lookup, PV.beq, PV.truthy, iterOf, iterLazy, Except.map]
 
 end Df.Tie
